@@ -204,6 +204,12 @@ Drifts(r) ==
                                CountLeaf(r.tree, "h") = 0 /\
                                LET s == Run(v.prog, r.envs[ei]) IN
                                Len(s.eff) # Len(v.runs[ei].eff)}
+\* the public DumpTable of the same program must be the table of the exported program (binds the
+\* build-tagged export to a public API of the library, and the table to the layout model)
+TableDrifts(r) ==
+  {f \in {<<"DRIFT", r.id, vi, "table">> : vi \in Idx(r.vars)} :
+     LET v == r.vars[f[3]] IN
+     v.cout = "ok" /\ v.hasprog /\ (~v.tab.ok \/ ~TableEq(TableOf(v.prog), v.tab))}
 NDrift(r) == Card({vi \in Idx(r.vars) : r.vars[vi].cout = "ok" /\ r.vars[vi].hasprog /\ r.vars[vi].how # "dirx" /\
                                          r.vars[vi].costs = "none" /\ r.vars[vi].ev = ""})
 
@@ -226,7 +232,7 @@ Next ==
   /\ l' = l + 1
   /\ LET r == Trace[l]
          F == Findings(r)
-         D == Drifts(r)
+         D == Drifts(r) \cup TableDrifts(r)
          c == Counts(r)
      IN /\ \A f \in F : PrintT(<<"F", f[1], f[2], f[3], f[4], f[5]>>)
         /\ \A f \in D : PrintT(<<"DRIFT", f[2], f[3], f[4]>>)
